@@ -520,6 +520,7 @@ func R16(p *core.Prog) *core.Result {
 	r := core.NewResult("R16", "zero-copy views are looked at, never kept; by-reference strings are copied or consumed inside the callback; parser inputs are only read and not retained; json hands a view to a consumer only for freshly allocated, exclusively owned bytes; unsafe.Pointer/uintptr conversions have the accepted single-expression form")
 	env := &aliasEnv{p: p, retains: map[*ssa.Function]map[int]string{}, returns: map[*ssa.Function]map[int]bool{}, gated: map[ssa.Instruction]string{}}
 	wsum := ComputeWriteSummaries(p)
+	typeGate(p, r)
 
 	// (b) FRESH-GATE for json: unquote
 	unq := p.LookupFunc("json", "(*Parser).unquote")
